@@ -102,6 +102,20 @@ def r2_tolerates_vanished_files(repo=None):
                     and x.func.attr in ("append", "insert", "extend") and pyfront.dotted(x.func.value) == L]
             others = [x for x in pyfront.walk_no_nested(fn_read) if isinstance(x, ast.Assign) and any(
                 isinstance(t, ast.Name) and t.id == L for t in x.targets) and not (isinstance(x.value, (ast.List, ast.Tuple)) and not x.value.elts)]
+            if not apps and len(others) == 1:
+                # the probing pass as a comprehension: `<L> = [p for p in <candidates> if os.access(p, os.R_OK)]`
+                cv = others[0].value
+                if isinstance(cv, ast.Call) and pyfront.call_name(cv) in ("list", "tuple") and len(cv.args) == 1:
+                    cv = cv.args[0]
+                if isinstance(cv, (ast.ListComp, ast.GeneratorExp)) and len(cv.generators) == 1 and isinstance(cv.generators[0].target, ast.Name) \
+                        and isinstance(cv.elt, ast.Name) and cv.elt.id == cv.generators[0].target.id:
+                    pv = cv.elt.id
+                    for t_ in cv.generators[0].ifs:
+                        terms_ = t_.values if isinstance(t_, ast.BoolOp) and isinstance(t_.op, ast.And) else [t_]
+                        if any(isinstance(x_, ast.Call) and pyfront.call_name(x_) == "os.access" and x_.args and isinstance(x_.args[0], ast.Name)
+                               and x_.args[0].id == pv for x_ in terms_):
+                            return True
+                return False
             if not apps or others:
                 return False
             for a in apps:
@@ -174,36 +188,111 @@ def r3_cache_is_keyed_by_full_name(repo=None):
     q = TL + "._read"
     fvw = m.flat(q)
     f = fvw.fn()
-    joins = [n for n in ast.walk(f) if isinstance(n, ast.Assign) and isinstance(n.targets[0], ast.Name) and isinstance(n.value, ast.Call)
-             and pyfront.call_name(n.value) == "os.path.join"]
-    if len(joins) != 1:
-        raise AnalysisError("%s: full path construction (os.path.join) not found exactly once" % q)
-    fv = joins[0].targets[0].id
     opens = [n for n in ast.walk(f) if isinstance(n, ast.Assign) and isinstance(n.value, ast.Call) and pyfront.call_name(n.value) == "h5py.File"
              and (pyfront.dotted(n.targets[0]) or "").startswith("self.")]
     if len(opens) != 1:
         raise AnalysisError("%s: `self.<handle> = h5py.File(...)` not found exactly once (helpers inlined: %s)" % (q, fvw.inlined))
     handle = pyfront.dotted(opens[0].targets[0])[5:]
-    keyattr = None
-    ifs = []
-    for n in ast.walk(f):
-        if isinstance(n, ast.If) and isinstance(n.test, ast.Compare) and len(n.test.ops) == 1 and isinstance(n.test.ops[0], ast.NotEq):
-            l_, r_ = n.test.left, n.test.comparators[0]
-            for a_, b_ in ((l_, r_), (r_, l_)):
-                if isinstance(a_, ast.Name) and a_.id == fv and (pyfront.dotted(b_) or "").startswith("self."):
-                    keyattr = pyfront.dotted(b_)[5:]
-                    ifs.append(n)
-    if len(ifs) != 1:
-        r.violation(m.rel, q, "no `%s != self.<cached name>` test" % fv, "the cache of the open file is not keyed by the full path: "
-                    "state of another file (same relative name in another top-level directory, or a stale handle) could be used",
-                    line=f.lineno)
+    if not opens[0].value.args or not isinstance(opens[0].value.args[0], ast.Name):
+        raise AnalysisError("%s: the path opened by h5py.File is not a plain local" % q)
+    fv = opens[0].value.args[0].id          # the local that holds the path that is opened
+    g2 = fvw.cfg()
+    # the key test: a comparison (== / !=) of a local with a self attribute; its "differs" edge guards a region of the CFG (the nodes
+    # that cannot be reached without taking that edge).  The test that guards the open is the cache test.
+    open_nodes = [n for n in g2.nodes if n.ast is opens[0]]
+    if len(open_nodes) != 1:
+        raise AnalysisError("%s: the open is not a node of the control-flow graph" % q)
+    tests = []
+    for n in g2.nodes:
+        if n.kind != "cond" or not isinstance(n.ast, ast.Compare) or len(n.ast.ops) != 1 or not isinstance(n.ast.ops[0], (ast.Eq, ast.NotEq)):
+            continue
+        l_, r_ = n.ast.left, n.ast.comparators[0]
+        for a_, b_ in ((l_, r_), (r_, l_)):
+            if isinstance(a_, ast.Name) and (pyfront.dotted(b_) or "").startswith("self.") and (pyfront.dotted(b_) or "").count(".") == 1:
+                differs = "T" if isinstance(n.ast.ops[0], ast.NotEq) else "F"
+                free = g2.reach([g2.entry.id], edge_filter=lambda x, y, lab, n=n, differs=differs: not (x == n.id and lab == differs))
+                if open_nodes[0].id not in free:
+                    tests.append((n, a_.id, pyfront.dotted(b_)[5:], {x.id for x in g2.nodes} - free))
+    if not tests:
+        raise AnalysisError("%s: no comparison of a local with a self attribute guards the open of the data file: whether (and by what) "
+                            "the open file is cached is not recognised" % q)
+    if len(tests) != 1:
+        raise AnalysisError("%s: %d comparisons guard the open" % (q, len(tests)))
+    tnode, tvar, keyattr, region_ids = tests[0]
+    if tvar != fv:
+        r.violation(m.rel, q, "`%s` compared with self.%s, `%s` opened" % (tvar, keyattr, fv), "the cache of the open file is not keyed by the "
+                    "path that is opened: state of another file (same relative name in another top-level directory, or a stale handle) "
+                    "could be used", line=tnode.line)
         return r
-    body = ifs[0]
-    region = ast.Module(body=list(body.body), type_ignores=[])
-    in_region = {id(x) for x in ast.walk(region)}
-    if id(opens[0]) not in in_region:
-        r.violation(m.rel, q, "h5py.File(...) outside the `%s != self.%s` test" % (fv, keyattr), "the file is re-opened (or not opened) "
-                    "independently of the cache key", line=opens[0].lineno)
+    region_asts = [n.ast for n in g2.nodes if n.id in region_ids and n.ast is not None]
+    in_region = set()
+    for a_ in region_asts:
+        in_region |= {id(x) for x in ast.walk(a_)} if not isinstance(a_, (ast.For, ast.While, ast.If, ast.Try, ast.With)) else {id(a_)}
+    region = ast.Module(body=[a_ for a_ in region_asts if isinstance(a_, ast.stmt) and not isinstance(a_, (ast.For, ast.While, ast.If, ast.Try, ast.With))],
+                        type_ignores=[])
+
+    class _B(object):
+        lineno = tnode.line
+    body = _B()
+    # where the opened path comes from: the elements of the list the reading pass iterates over
+    def elements(e, depth=0):
+        """expressions an element of iterable e can be (probing filters looked through)"""
+        if depth > 8:
+            raise AnalysisError("%s: provenance of the opened path too deep" % q)
+        if isinstance(e, ast.Call) and pyfront.call_name(e) in ("reversed", "sorted", "list", "tuple", "iter") and e.args:
+            return elements(e.args[0], depth + 1)
+        if isinstance(e, (ast.ListComp, ast.GeneratorExp)) and len(e.generators) == 1 and isinstance(e.generators[0].target, ast.Name):
+            gv = e.generators[0].target.id
+            if isinstance(e.elt, ast.Name) and e.elt.id == gv:
+                return elements(e.generators[0].iter, depth + 1)
+            return [(e.elt, gv)]
+        if isinstance(e, ast.Name):
+            out = []
+            for x in pyfront.walk_no_nested(f):
+                if isinstance(x, ast.Assign) and any(isinstance(t, ast.Name) and t.id == e.id for t in x.targets):
+                    if isinstance(x.value, (ast.List, ast.Tuple)) and not x.value.elts:
+                        continue
+                    out += elements(x.value, depth + 1)
+                elif isinstance(x, ast.Call) and isinstance(x.func, ast.Attribute) and x.func.attr in ("append", "insert", "appendleft") \
+                        and pyfront.dotted(x.func.value) == e.id and x.args:
+                    out.append((x.args[-1], None))
+            return out
+        raise AnalysisError("%s: provenance of the opened path: `%s` not followed" % (q, norm(ast.unparse(e))[:50]))
+
+    def flat_join(e, depth=0):
+        """argument list of os.path.join with nested joins and once-assigned locals written out"""
+        if depth > 6:
+            return [e]
+        if isinstance(e, ast.Name):
+            defs = [x for x in pyfront.walk_no_nested(f) if isinstance(x, ast.Assign) and any(isinstance(t, ast.Name) and t.id == e.id for t in x.targets)]
+            if len(defs) == 1 and isinstance(defs[0].value, ast.Call) and pyfront.call_name(defs[0].value) == "os.path.join":
+                return flat_join(defs[0].value, depth + 1)
+            return [e]
+        if isinstance(e, ast.Call) and pyfront.call_name(e) == "os.path.join":
+            out = []
+            for a_ in e.args:
+                out += flat_join(a_, depth + 1)
+            return out
+        return [e]
+    lp = fvw.enclosing(opens[0], (ast.For,))
+    while lp is not None and not (isinstance(lp.target, ast.Name) and lp.target.id == fv):
+        lp = fvw.enclosing(lp, (ast.For,))
+    if lp is None:
+        defs = [x for x in pyfront.walk_no_nested(f) if isinstance(x, ast.Assign) and any(isinstance(t, ast.Name) and t.id == fv for t in x.targets)]
+        srcs = [(d.value, None) for d in defs]
+    else:
+        srcs = elements(lp.iter)
+    joined = []
+    for e_, gv_ in srcs:
+        while isinstance(e_, ast.Name):
+            defs = [x for x in pyfront.walk_no_nested(f) if isinstance(x, ast.Assign) and any(isinstance(t, ast.Name) and t.id == e_.id for t in x.targets)]
+            if len(defs) != 1:
+                break
+            e_ = defs[0].value
+        joined.append(e_)
+    if not joined:
+        raise AnalysisError("%s: provenance of the opened path `%s` not found" % (q, fv))
+    joins = joined
     # derived attributes
     derived = {handle}
     changed = True
@@ -243,7 +332,6 @@ def r3_cache_is_keyed_by_full_name(repo=None):
                     "part of the cached per-file state is not refreshed when the file changes", line=body.lineno)
     # a closed handle must not stay cached under its old key: after self.<handle>.close() the key is re-assigned before
     # the function moves on (next file or return); paths that leave by an uncaught exception are not considered
-    g2 = fvw.cfg()
     closes = [n for n in g2.nodes if any(pyfront.call_name(c) == "self.%s.close" % handle for c in pyfront.node_calls(n))]
     keys = [n.id for n in g2.nodes if isinstance(n.ast, ast.Assign) and any(
         pyfront.dotted(t) == "self." + keyattr for t in n.ast.targets)]
@@ -262,10 +350,13 @@ def r3_cache_is_keyed_by_full_name(repo=None):
         else:
             r.ok("%s:%s %s" % (m.rel, cnode.line, q), "after closing the cached handle the key is re-assigned before the next file / return")
     # the key is the absolute join
-    if [norm(ast.unparse(a)) for a in joins[0].value.args[:2]] == ["self.top_level_dir", "self.channel_name"]:
-        r.ok("%s:%s %s" % (m.rel, joins[0].lineno, q), "%s = top_level_dir/channel/relative path" % fv)
-    else:
-        r.violation(m.rel, q, "%s = %s" % (fv, norm(ast.unparse(joins[0].value))), "cache key is not the full path", line=joins[0].lineno)
+    for j_ in joins:
+        if not (isinstance(j_, ast.Call) and pyfront.call_name(j_) == "os.path.join"):
+            raise AnalysisError("%s: the opened path `%s` comes from `%s`, not from os.path.join" % (q, fv, norm(ast.unparse(j_))[:60]))
+        if [norm(ast.unparse(a)) for a in flat_join(j_)[:2]] == ["self.top_level_dir", "self.channel_name"]:
+            r.ok("%s:%s %s" % (m.rel, j_.lineno, q), "%s = top_level_dir/channel/relative path" % fv)
+        else:
+            r.violation(m.rel, q, "%s = %s" % (fv, norm(ast.unparse(j_))), "cache key is not the full path", line=j_.lineno)
     r.guard(2)
     return r
 
@@ -302,7 +393,47 @@ def r4_consistent_snapshot(repo=None):
     for c in probes:
         lp = loop_of(c)
         if lp is None:
-            raise AnalysisError("%s: os.access probe outside a loop over the candidate files" % q)
+            # the probing pass as an eager comprehension: `[p for p in <candidates, newest first> if os.access(p, ...)]`
+            comp = parents.get(c)
+            while comp is not None and not isinstance(comp, (ast.ListComp, ast.SetComp, ast.GeneratorExp, ast.DictComp, ast.FunctionDef)):
+                comp = parents.get(comp)
+            eager = isinstance(comp, ast.ListComp) or (isinstance(comp, ast.GeneratorExp) and isinstance(parents.get(comp), ast.Call)
+                                                        and pyfront.call_name(parents.get(comp)) in ("list", "tuple", "sorted"))
+            if not isinstance(comp, (ast.ListComp, ast.GeneratorExp)) or not eager or len(comp.generators) != 1:
+                raise AnalysisError("%s: os.access probe outside a loop (or an eager comprehension) over the candidate files" % q)
+            allowed_calls = ("os.access", "os.path.join", "reversed")
+            if any(isinstance(x, ast.Call) and pyfront.call_name(x) not in allowed_calls for x in ast.walk(comp)):
+                raise AnalysisError("%s: the probing comprehension calls something besides os.access / os.path.join" % q)
+            # follow the iterable back to the candidate list parameter, counting reversals; lazily evaluated links are consumed by
+            # the eager comprehension, so the whole probing pass is complete when the comprehension is
+            it, nrev, hops = comp.generators[0].iter, 0, 0
+            while hops < 8:
+                hops += 1
+                if isinstance(it, ast.Call) and pyfront.call_name(it) == "reversed" and it.args:
+                    nrev += 1
+                    it = it.args[0]
+                elif isinstance(it, (ast.ListComp, ast.GeneratorExp)) and len(it.generators) == 1 and not it.generators[0].ifs:
+                    if any(isinstance(x, ast.Call) and pyfront.call_name(x) not in allowed_calls for x in ast.walk(it.elt)):
+                        raise AnalysisError("%s: candidates are mapped through `%s`" % (q, norm(ast.unparse(it.elt))[:50]))
+                    it = it.generators[0].iter
+                elif isinstance(it, ast.Name) and it.id not in params:
+                    defs = [x for x in ast.walk(fn) if isinstance(x, ast.Assign) and any(isinstance(t, ast.Name) and t.id == it.id for t in x.targets)]
+                    if len(defs) != 1:
+                        raise AnalysisError("%s: candidates `%s` not assigned exactly once" % (q, it.id))
+                    it = defs[0].value
+                else:
+                    break
+            site = "%s:%s %s `%s`" % (m.rel, comp.lineno, q, norm(ast.unparse(comp))[:60])
+            if not (isinstance(it, ast.Name) and it.id in params):
+                raise AnalysisError("%s: the probing comprehension does not run over the candidate list parameter (`%s`)" % (q, norm(ast.unparse(it))[:60]))
+            if nrev % 2 == 1:
+                r.ok(site, "probing pass newest-first in one eager comprehension, nothing is opened before it is complete: the files seen "
+                     "are a prefix of the files finalized")
+            else:
+                r.violation(m.rel, q, "probing pass `%s` in ascending order" % norm(ast.unparse(comp))[:50],
+                            "the probing pass runs oldest-first: the writer can finalize files k and k+1 between the probe of k (absent) and "
+                            "the probe of k+1 (present); only a newest-first pass yields a prefix of the files written", line=comp.lineno)
+            continue
         opens_in = [x for x in ast.walk(lp) if isinstance(x, ast.Call) and pyfront.call_name(x) == "h5py.File"]
         it = lp.iter
         rev = isinstance(it, ast.Call) and pyfront.call_name(it) == "reversed"
@@ -418,8 +549,26 @@ def r6_capsule_has_one_owner(repo=None):
         par = parent.get(expr)
         n_sites[0] += 1
         site = "%s:%s %s `%s`" % (m.rel, expr.lineno, q, norm(ast.unparse(par))[:60])
+        def param_is_ext(call):
+            """the callee is a parameter of the enclosing method and every caller in the class passes an extension function for it"""
+            if not (isinstance(call, ast.Call) and isinstance(call.func, ast.Name) and isinstance(fn, ast.FunctionDef) and expr in call.args):
+                return False
+            ps = [a.arg for a in fn.args.args]
+            if call.func.id not in ps or any(isinstance(x, ast.Name) and x.id == call.func.id and isinstance(x.ctx, ast.Store) for x in ast.walk(fn)):
+                return False
+            idx = ps.index(call.func.id) - 1       # without self
+            callers = [c for c in ast.walk(cls) if isinstance(c, ast.Call) and pyfront.dotted(c.func) == "self." + fname]
+            if not callers or idx < 0:
+                return False
+            for c in callers:
+                a = c.args[idx] if idx < len(c.args) else pyfront.kwarg(c, call.func.id)
+                if a is None or not (pyfront.dotted(a) or "").startswith("_py_rf_write_hdf5."):
+                    return False
+            return True
         if is_ext_call(par) and expr in par.args:
             r.ok(site, "%s borrowed by the extension call" % what)
+        elif param_is_ext(par):
+            r.ok(site, "%s borrowed by the extension function every caller passes as `%s`" % (what, par.func.id))
         elif isinstance(par, ast.UnaryOp) and isinstance(par.op, ast.Not) or isinstance(par, (ast.If, ast.While, ast.BoolOp, ast.IfExp)) and getattr(par, "test", None) is expr \
                 or (isinstance(par, ast.Compare) and all(isinstance(o, (ast.Is, ast.IsNot)) for o in par.ops)):
             r.ok(site, "%s only tested" % what)
